@@ -333,7 +333,8 @@ Fixpoint frame_loop (fuel : nat) (end_frame : N) (out_bytes : N) : lm N :=
             i <- read_bits 1 ;;
             ij <- (if i =? 1 then a <- read_bits 16 ;; b <- read_bits 16 ;; ret (N.lor (N.shiftl a 16) b) else ret 0) ;;
             modify (fun s => s <| intel_filesize := ij |> <| header_read := true |>)) ;;
-    _ <- avail ;;            (* READ_IF_NEEDED before the frame is sized (fix: late output-length hint) *)
+    s1' <- get ;;
+    _ <- (if length s1' =? 0 then avail else ret tt) ;;   (* if (!lzx->length) READ_IF_NEEDED; (fix: late output-length hint) *)
     s2 <- get ;;
     let frame_size := if negb (length s2 =? 0) && (Z.of_N (length s2) - Z.of_N (offset s2) <? 32768)%Z
                       then u32 (Z.of_N (length s2) - Z.of_N (offset s2))%Z else FRAME_SIZE in
@@ -369,7 +370,7 @@ Definition decompress (out_bytes : N) : lm unit :=
   let ob := out_bytes - i in
   if ob =? 0 then ret tt else
   s1 <- get ;;
-  let end_frame := N.land ((offset s1 + ob) / FRAME_SIZE) (M32 - 1) + 1 in
+  let end_frame := N.land ((offset s1 + ob + FRAME_SIZE - 1) / FRAME_SIZE) (M32 - 1) in     (* fix: no decode-ahead past a frame boundary *)
   rest <- frame_loop 70000 end_frame ob ;;
   if negb (rest =? 0) then fail ERR_DECRUNCH else ret tt.
 
